@@ -140,7 +140,9 @@ def _refuses_naive(fn, vp, lookup=None) -> Optional[bool]:
 
     rps, pths = return_paths(fn, lookup, Expander(fn))
     atoms = set(PT.atoms_of(pths))
-    mine = [a for a in atoms if a in (f"{vp}.utcoffset() is None", f"{vp}.tzinfo is None")]
+    # a value is aware iff its utcoffset() is not None; `tzinfo is None` alone does not decide it (a time carrying a
+    # date-dependent tzinfo has a tzinfo and still no offset)
+    mine = [a for a in atoms if a == f"{vp}.utcoffset() is None"]
     if not mine:
         return None
     goal = PT.Cond("and", [PT.atom(a, False) for a in mine[:1]])
@@ -165,7 +167,9 @@ def z_r2_naive(p: Project, rep: Report):
             continue
         own_ok = _refuses_naive(h.ffn, h.value_param(), h._lookup)
         rps, _ = h.return_paths()
-        via_fd = bool(rps) and all(rtxt.startswith("format_datetime(") for _p, rtxt, _s in rps)
+        vp_ = h.value_param()
+        # format_datetime's own refusal only counts when it is given the value itself (not a datetime built around it)
+        via_fd = bool(rps) and all(rtxt.startswith("format_datetime(") and rtxt.endswith(f", {vp_})") for _p, rtxt, _s in rps)
         ok = (own_ok is True) or (via_fd and fd_ok is True)
         if not ok and own_ok is None and not via_fd and fd_ok is None:
             rep.note(f"Z-R2 undecided for {name} writer")
@@ -303,6 +307,24 @@ def z_r3_writer_shape(p: Project, rep: Report):
         rep.check("Z-R3", f"{clsname}.regex:offset-minutes", ok, "offset minutes are not two digits" if not ok else "", r.where)
         ok = "tz_name" in r.groups
         rep.check("Z-R3", f"{clsname}.regex:tz-name", ok, "no tz_name group" if not ok else "", r.where)
+        if ok:
+            # the writer emits value.tzname() verbatim: letters, digits and - for unnamed fixed offsets - 'UTC-05:00'
+            titems, _tp = r.find_group("tz_name")
+            tl = list(titems)
+            admits = None
+            if len(tl) == 1 and tl[0][0] in (rx.sre_c.MAX_REPEAT, rx.sre_c.MIN_REPEAT):
+                tin = list(tl[0][1][2])
+                if len(tin) == 1 and tin[0][0] is rx.sre_c.ANY:
+                    admits = True
+                elif len(tin) == 1 and tin[0][0] is rx.sre_c.IN:
+                    cs_ = rx.charset(tin[0][1])
+                    need_ = set("ABCDEFGHIJKLMNOPQRSTUVWXYZabcdefghijklmnopqrstuvwxyz0123456789+-:/_ ")
+                    admits = cs_ is not None and need_ <= cs_
+                    missing_ = sorted(need_ - cs_) if cs_ is not None else []
+            if admits is None:
+                rep.note(f"Z-R3 undecided: {clsname} tz_name pattern not recognised")
+            else:
+                rep.check("Z-R3", f"{clsname}.regex:tz-name-admits-written-names", admits, f"the zone-name group does not admit {missing_[:6]}: names the writer emits (tzname() of an unnamed fixed offset is 'UTC-05:00') cannot be read back" if not admits else "", r.where)
 
 
 def z_r4_conversion(p: Project, rep: Report):
